@@ -113,6 +113,12 @@ def run(tier, seed, replay=None):
                     s['cps'] = [[x * f if (not s['rational'] or j < s['dim']) else x for j, x in enumerate(pt)] for pt in s['cps']]
                     if s['rational']:
                         s['cps'] = [[pt[j] if j == s['dim'] else pt[j] for j in range(len(pt))] for pt in s['cps']]
+                if s['rational'] and rng.random() < 0.4:
+                    # rational with every weight equal to one (what force_rational() gives), or within 1e-6 of one: still a
+                    # rational object, to be read back as one, with these weights
+                    eps_ = rng.choice([Fr(0), Fr(0), Fr(1, 2 ** 20), Fr(1, 2 ** 23)])
+                    s['intcps'] = False
+                    s['cps'] = [[(x_ / pt_[-1]) * (1 + eps_ * ((i_ % 3) - 1)) for x_ in pt_[:-1]] + [1 + eps_ * ((i_ % 3) - 1)] for i_, pt_ in enumerate(s['cps'])]
                 specs.append((s, mag))
             objs = [O.make_impl(s) for s, _ in specs]
             args = dict(objects=[O.spec_json(s) for s, _ in specs])
